@@ -36,9 +36,10 @@ Definition res_same_value (a b : res) : bool :=
   end.
 Definition out_matches (m : out) (r : res) (after : list val) : bool :=
   res_eqb (o_res m) r && list_eqb val_eqb (o_args m) after.
-(* 0: M = observed.  1: M <> observed; inside the guard the observed outcome still equals S (or the
+(* 0: M = observed (and the proved theorems hold on the case).  1: M <> observed; inside the guard the observed outcome still equals S (or the
    case is outside the guard).  2: M <> observed and, inside the guard, observed <> S.
-   3: self-check: M = observed, inside the guard, but M <> S (the theorem would be false) *)
+   3: self-check: M = observed, inside the guard, but M <> S (the theorem would be false); or inside the
+      value domain and the value of M differs from the value of S (the value-level theorem would be false) *)
 Definition check_case (c : case) : N :=
   let '(o, args, r, after) := c in
   let m := m_op o args in
@@ -48,7 +49,8 @@ Definition check_case (c : case) : N :=
   let dom := in_domain o args in
   let s_obs := match s_out o args with Some so => out_matches so r after | None => true end in
   let s_m := match s_out o args with Some so => out_matches so (o_res m) (o_args m) | None => true end in
-  if agree then (if dom && negb s_m then 3%N else 0%N)
+  let v_m := match s_out o args with Some so => res_same_value (o_res so) (o_res m) | None => false end in
+  if agree then (if (dom && negb s_m) || (value_domain o args && negb v_m) then 3%N else 0%N)
   (* a failing input: the implementation leaves S inside the guard, or on an input where the model
      (the unchanged code) met S *)
   else if (dom || s_m) && negb s_obs then 2%N
@@ -69,3 +71,6 @@ Definition guard_count (cs : list case) : N :=
 Definition spec_agree_count (cs : list case) : N :=
   N.of_nat (length (filter (fun c => let '(o, args, r, after) := c in
      match s_out o args with Some so => out_matches so r after | None => false end) cs)).
+
+Definition value_guard_count (cs : list case) : N :=
+  N.of_nat (length (filter (fun c => let '(o, args, _, _) := c in value_domain o args) cs)).
